@@ -28,6 +28,23 @@ def main():
                 n, ok, fail = nativespec.check_native(c)
                 print("native:", n, ok, fail)
                 still = fail is not None
+    elif p.get("property") == "C11" and p.get("formula"):
+        import sweetpea._internal.logic as Lg
+        from sweetpea._internal.logic import And, Or, If, Iff, Not      # noqa: F401 (names used by eval of the formula repr)
+        from checks import c11
+        f = eval(p["formula"])
+        name = p["function"].rsplit("to_cnf_", 1)[1]
+        r = c11.check_one(name, getattr(Lg, "to_cnf_" + name), f, p["next_variable"], c11.vars_of(f, set()) | {1, 2, 3})
+        print("native:", r)
+        still = r is not None
+    elif p.get("property") == "C11" and p.get("kind") in ("key", "node"):
+        import sweetpea._internal.logic as Lg
+        from checks import c11
+        from pyvc.report import Check
+        ck = Check("C11", "quick", "other", "replay")
+        c11.node_contracts(ck, Lg, "quick")
+        print("native:", [v.get("what") for v in ck.viol][:3])
+        still = bool(ck.viol)
     if still is None:
         print("no native replay available for this file (obligation-level report):", p.get("what"))
         sys.exit(2)
